@@ -14,6 +14,8 @@ import (
 
 // WireOpts tunes the joint generation of (schema, Go target).
 type WireOpts struct {
+	// ManyDatums: now and then a file of 65-200 records (set by the checks that read a file once or twice, not by those that enumerate sites per file).
+	ManyDatums bool
 	MaxDepth int
 	// Logical adds date / timestamp-millis / timestamp-micros (and plain long
 	// read as nanoseconds) with time.Time targets.
